@@ -1,3 +1,291 @@
+/-
+C20 — lemmas about the text layer of the CLI model (`Model/CliText.lean`): splitting, the line loop of `read_data`,
+the writer, transposition.  Core Lean suffices (no Mathlib import).
+-/
 import TapkeeVerif.Model.CliText
+
 namespace TapkeeVerif.Cli
+
+/-! ## `splitOn` -/
+
+theorem splitOn_ne_nil (d : Char) (s : Str) : splitOn d s ≠ [] := by
+  cases s with
+  | nil => simp [splitOn]
+  | cons c cs =>
+    unfold splitOn
+    split
+    · simp
+    · split <;> simp
+
+/-- a string without the delimiter is a single segment -/
+theorem splitOn_of_not_mem {d : Char} {s : Str} (h : d ∉ s) : splitOn d s = [s] := by
+  induction s with
+  | nil => rfl
+  | cons c cs ih =>
+    have hc : c ≠ d := by
+      intro e
+      exact h (by simp [e])
+    have hcs : d ∉ cs := fun m => h (List.mem_cons_of_mem _ m)
+    simp [splitOn, hc, ih hcs]
+
+/-- the first segment is cut at the first delimiter -/
+theorem splitOn_append_delim {d : Char} {a : Str} (h : d ∉ a) (rest : Str) :
+    splitOn d (a ++ d :: rest) = a :: splitOn d rest := by
+  induction a with
+  | nil => simp [splitOn]
+  | cons c cs ih =>
+    have hc : c ≠ d := by
+      intro e
+      exact h (by simp [e])
+    have hcs : d ∉ cs := fun m => h (List.mem_cons_of_mem _ m)
+    have := ih hcs
+    simp [splitOn, hc, this]
+
+/-- splitting undoes joining with the delimiter -/
+theorem splitOn_intercalate {d : Char} :
+    ∀ (toks : List Str), toks ≠ [] → (∀ t ∈ toks, d ∉ t) → splitOn d (List.intercalate [d] toks) = toks
+  | [t], _, h => by
+    simp only [List.intercalate_singleton]
+    exact splitOn_of_not_mem (h t (by simp))
+  | a :: b :: t, _, h => by
+    have ih := splitOn_intercalate (b :: t) (by simp) (fun x hx => h x (List.mem_cons_of_mem _ hx))
+    rw [List.intercalate_cons_cons]
+    have : a ++ [d] ++ List.intercalate [d] (b :: t) = a ++ d :: List.intercalate [d] (b :: t) := by simp
+    rw [this, splitOn_append_delim (h a (by simp)), ih]
+
+/-! ## lines -/
+
+/-- a text in which every line is terminated by `'\n'` (what `write_matrix` / `write_vector` produce) -/
+def joinLines (ls : List Str) : Str := (ls.map (· ++ ['\n'])).flatten
+
+theorem joinLines_cons (l : Str) (ls : List Str) : joinLines (l :: ls) = l ++ '\n' :: joinLines ls := by
+  simp [joinLines]
+
+theorem splitOn_joinLines : ∀ (ls : List Str), (∀ l ∈ ls, '\n' ∉ l) → splitOn '\n' (joinLines ls) = ls ++ [[]]
+  | [], _ => by simp [joinLines, splitOn]
+  | l :: ls, h => by
+    rw [joinLines_cons, splitOn_append_delim (h l (by simp)),
+      splitOn_joinLines ls (fun x hx => h x (List.mem_cons_of_mem _ hx))]
+    simp
+
+/-- text whose last line is NOT terminated -/
+theorem splitOn_joinLines_append : ∀ (ls : List Str) (last : Str), (∀ l ∈ ls, '\n' ∉ l) → '\n' ∉ last →
+    splitOn '\n' (joinLines ls ++ last) = ls ++ [last]
+  | [], last, _, hl => by simp [joinLines, splitOn_of_not_mem hl]
+  | l :: ls, last, h, hl => by
+    rw [joinLines_cons]
+    have : l ++ '\n' :: joinLines ls ++ last = l ++ '\n' :: (joinLines ls ++ last) := by simp
+    rw [this, splitOn_append_delim (h l (by simp)),
+      splitOn_joinLines_append ls last (fun x hx => h x (List.mem_cons_of_mem _ hx)) hl]
+    simp
+
+/-- on a properly terminated text the loop body sees every line once, then the empty string -/
+theorem observedLines_joinLines (ls : List Str) (h : ∀ l ∈ ls, '\n' ∉ l) :
+    observedLines (joinLines ls) = ls ++ [[]] := by
+  simp [observedLines, splitOn_joinLines ls h]
+
+/-- on a text whose last line is not terminated the loop body sees that line TWICE -/
+theorem observedLines_unterminated (ls : List Str) (last : Str) (h : ∀ l ∈ ls, '\n' ∉ l) (hl : '\n' ∉ last)
+    (hne : last ≠ []) : observedLines (joinLines ls ++ last) = ls ++ [last, last] := by
+  simp only [observedLines, splitOn_joinLines_append ls last h hl]
+  cases last with
+  | nil => exact absurd rfl hne
+  | cons c cs => simp
+
+/-! ## reader -/
+
+/-- the tokens `read_data` keeps on one line -/
+def lineValues {α} (parse : Str → Option α) (d : Char) (l : Str) : List α := (fields d l).filterMap parse
+
+theorem readRows_joinLines {α} (parse : Str → Option α) (d : Char) (ls : List Str) (h : ∀ l ∈ ls, '\n' ∉ l) :
+    readRows parse d (joinLines ls) = (ls.filter (fun l => !l.isEmpty)).map (lineValues parse d) := by
+  simp [readRows, observedLines_joinLines ls h, lineValues, List.filter_append]
+
+/-- F-CLI-EOF, the general form: an unterminated last line is read twice -/
+theorem readRows_unterminated {α} (parse : Str → Option α) (d : Char) (ls : List Str) (last : Str)
+    (h : ∀ l ∈ ls, '\n' ∉ l) (hl : '\n' ∉ last) (hne : last ≠ []) :
+    readRows parse d (joinLines ls ++ last) =
+      (ls.filter (fun l => !l.isEmpty)).map (lineValues parse d) ++ [lineValues parse d last, lineValues parse d last] := by
+  have hne' : last.isEmpty = false := by
+    cases last with
+    | nil => exact absurd rfl hne
+    | cons c cs => rfl
+  simp [readRows, observedLines_unterminated ls last h hl hne, lineValues, List.filter_append, hne']
+
+theorem firstRagged_none {α} (c : Nat) : ∀ (rows : List (List α)) (i : Nat), (∀ r ∈ rows, r.length = c) →
+    firstRagged c rows i = none
+  | [], _, _ => rfl
+  | r :: rs, i, h => by
+    have hr : r.length = c := h r (by simp)
+    simp [firstRagged, hr, firstRagged_none c rs (i + 1) (fun x hx => h x (List.mem_cons_of_mem _ hx))]
+
+theorem firstRagged_some {α} (c : Nat) : ∀ (rows : List (List α)) (i : Nat), (∃ r ∈ rows, r.length ≠ c) →
+    (firstRagged c rows i).isSome = true
+  | [], _, h => by
+    obtain ⟨r, hr, _⟩ := h
+    cases hr
+  | r :: rs, i, h => by
+    by_cases hr : r.length = c
+    · have : ∃ r ∈ rs, r.length ≠ c := by
+        obtain ⟨x, hx, hne⟩ := h
+        rcases List.mem_cons.mp hx with rfl | hx
+        · exact absurd hr hne
+        · exact ⟨x, hx, hne⟩
+      simp [firstRagged, hr, firstRagged_some c rs (i + 1) this]
+    · simp [firstRagged, hr]
+
+/-- rows of equal length become the matrix with exactly these rows -/
+theorem matrixOfRows_uniform {α} (r0 : List α) (rs : List (List α)) (h : ∀ r ∈ rs, r.length = r0.length) :
+    matrixOfRows (r0 :: rs) = .ok { cols := r0.length, rows := r0 :: rs } := by
+  have : firstRagged r0.length (r0 :: rs) 0 = none :=
+    firstRagged_none _ _ _ (by
+      intro r hr
+      rcases List.mem_cons.mp hr with rfl | hr
+      · rfl
+      · exact h r hr)
+  simp [matrixOfRows, this]
+
+/-- rows of unequal length are an error (`throw std::runtime_error("Wrong data at line i")`) -/
+theorem matrixOfRows_ragged {α} (r0 : List α) (rs : List (List α)) (h : ∃ r ∈ rs, r.length ≠ r0.length) :
+    ∃ i, matrixOfRows (r0 :: rs) = .error (.ragged i) := by
+  have hs : (firstRagged r0.length (r0 :: rs) 0).isSome = true :=
+    firstRagged_some _ _ _ (by
+      obtain ⟨r, hr, hne⟩ := h
+      exact ⟨r, List.mem_cons_of_mem _ hr, hne⟩)
+  cases hf : firstRagged r0.length (r0 :: rs) 0 with
+  | none => simp [hf] at hs
+  | some i => exact ⟨i, by simp [matrixOfRows, hf]⟩
+
+/-! ## writer -/
+
+/-- the contract between the number printer and the number parser that the I/O theorems need; `r` is what a value
+    becomes after one print / parse trip (for `os << double`: the value rounded to 6 significant digits) -/
+structure PrintParse {α} (print : α → Str) (parse : Str → Option α) (d : Char) (r : α → α) : Prop where
+  nonempty : ∀ x, print x ≠ []
+  no_delim : ∀ x, d ∉ print x
+  no_newline : ∀ x, '\n' ∉ print x
+  delim_ne_newline : d ≠ '\n'
+  parse_print : ∀ x, parse (print x) = some (r x)
+
+theorem writeMatrix_eq_joinLines {α} (print : α → Str) (d : Char) (M : DMat α) :
+    writeMatrix print d M = joinLines (M.rows.map (writeLine print d)) := by
+  simp [writeMatrix, joinLines, List.map_map, Function.comp_def]
+
+theorem writeVector_eq_joinLines {α} (print : α → Str) (v : List α) :
+    writeVector print v = joinLines (v.map print) := by
+  simp [writeVector, joinLines, List.map_map, Function.comp_def]
+
+theorem not_mem_intercalate {d c : Char} (hcd : c ≠ d) :
+    ∀ (toks : List Str), (∀ t ∈ toks, c ∉ t) → c ∉ List.intercalate [d] toks
+  | [], _ => by simp
+  | [t], h => by simpa using h t (by simp)
+  | a :: b :: t, h => by
+    rw [List.intercalate_cons_cons]
+    have ih := not_mem_intercalate hcd (b :: t) (fun x hx => h x (List.mem_cons_of_mem _ hx))
+    have ha := h a (by simp)
+    simp only [List.mem_append, List.mem_singleton, not_or]
+    exact ⟨⟨ha, hcd⟩, ih⟩
+
+theorem writeLine_no_newline {α} {print : α → Str} {parse : Str → Option α} {d : Char} {r : α → α}
+    (hp : PrintParse print parse d r) (row : List α) : '\n' ∉ writeLine print d row := by
+  unfold writeLine
+  apply not_mem_intercalate (Ne.symm hp.delim_ne_newline)
+  intro t ht
+  obtain ⟨x, _, rfl⟩ := List.mem_map.mp ht
+  exact hp.no_newline x
+
+/-- a written line splits back into exactly its printed entries -/
+theorem splitOn_writeLine {α} {print : α → Str} {parse : Str → Option α} {d : Char} {r : α → α}
+    (hp : PrintParse print parse d r) (row : List α) (hne : row ≠ []) :
+    splitOn d (writeLine print d row) = row.map print := by
+  unfold writeLine
+  apply splitOn_intercalate
+  · simpa using hne
+  · intro t ht
+    obtain ⟨x, _, rfl⟩ := List.mem_map.mp ht
+    exact hp.no_delim x
+
+theorem writeLine_ne_nil {α} {print : α → Str} {parse : Str → Option α} {d : Char} {r : α → α}
+    (hp : PrintParse print parse d r) (row : List α) (hne : row ≠ []) : writeLine print d row ≠ [] := by
+  intro h
+  have := splitOn_writeLine hp row hne
+  rw [h] at this
+  cases row with
+  | nil => exact hne rfl
+  | cons x xs =>
+    simp [splitOn] at this
+    exact hp.nonempty x this.1
+
+/-- no trailing delimiter: the last field of a written line is a printed number, not the empty string -/
+theorem fields_writeLine {α} {print : α → Str} {parse : Str → Option α} {d : Char} {r : α → α}
+    (hp : PrintParse print parse d r) (row : List α) (hne : row ≠ []) :
+    fields d (writeLine print d row) = row.map print := by
+  unfold fields
+  simp only [splitOn_writeLine hp row hne]
+  have : (row.map print).getLast? ≠ some [] := by
+    intro h
+    rw [List.getLast?_map] at h
+    cases hl : row.getLast? with
+    | none => simp [hl] at h
+    | some x =>
+      simp [hl] at h
+      exact hp.nonempty x h
+  rw [if_neg this]
+
+theorem lineValues_writeLine {α} {print : α → Str} {parse : Str → Option α} {d : Char} {r : α → α}
+    (hp : PrintParse print parse d r) (row : List α) (hne : row ≠ []) :
+    lineValues parse d (writeLine print d row) = row.map r := by
+  unfold lineValues
+  rw [fields_writeLine hp row hne, List.filterMap_map]
+  have : (parse ∘ print) = fun x => some (r x) := funext hp.parse_print
+  rw [this, List.filterMap_eq_map']
+
+/-! ## transposition -/
+
+theorem transpose_nrows {α} (M : DMat α) : M.transpose.nrows = M.cols := by
+  simp [DMat.transpose, DMat.nrows]
+
+theorem transpose_cols {α} (M : DMat α) : M.transpose.cols = M.nrows := rfl
+
+theorem filterMap_getElem?_length {α} (j : Nat) : ∀ (rows : List (List α)), (∀ r ∈ rows, j < r.length) →
+    (rows.filterMap (fun r => r[j]?)).length = rows.length
+  | [], _ => rfl
+  | r :: rs, h => by
+    have hr : j < r.length := h r (by simp)
+    have ih := filterMap_getElem?_length j rs (fun x hx => h x (List.mem_cons_of_mem _ hx))
+    simp [List.getElem?_eq_getElem hr, ih]
+
+theorem filterMap_getElem?_get {α} (i : Nat) : ∀ (rows : List (List α)) (j : Nat), (∀ r ∈ rows, i < r.length) →
+    (rows.filterMap (fun r => r[i]?))[j]? = (rows[j]?).bind (fun r => r[i]?)
+  | [], j, _ => by simp
+  | r :: rs, j, h => by
+    have hr : i < r.length := h r (by simp)
+    have ih := fun j => filterMap_getElem?_get i rs j (fun x hx => h x (List.mem_cons_of_mem _ hx))
+    cases j with
+    | zero => simp [List.getElem?_eq_getElem hr]
+    | succ j => simp [List.getElem?_eq_getElem hr, ih j]
+
+theorem transpose_WF {α} (M : DMat α) (h : M.WF) : M.transpose.WF := by
+  intro row hrow
+  simp only [DMat.transpose, List.mem_map, List.mem_range] at hrow
+  obtain ⟨j, hj, rfl⟩ := hrow
+  simp only [DMat.transpose]
+  apply filterMap_getElem?_length
+  intro r hr
+  rw [h r hr]
+  exact hj
+
+/-- entry (i, j) of the transposed matrix is entry (j, i) of the matrix -/
+theorem transpose_get {α} (M : DMat α) (h : M.WF) (i j : Nat) (hi : i < M.cols) :
+    M.transpose.get? i j = M.get? j i := by
+  unfold DMat.get?
+  have h1 : M.transpose.rows[i]? = some (M.rows.filterMap (fun r => r[i]?)) := by
+    simp [DMat.transpose, List.getElem?_map, List.getElem?_range hi]
+  rw [h1]
+  simp only [Option.bind_some]
+  apply filterMap_getElem?_get
+  intro r hr
+  rw [h r hr]
+  exact hi
+
 end TapkeeVerif.Cli
